@@ -5,6 +5,8 @@ import CnbVerif.Gen.Schemas
 /-!
 Driver glue for C07. fields = [kind, kind-specific call sequence / value …]; the observation is
 `<tree tomllib parsed from the bytes libcnb wrote>;rt=<1|0|->` (`rt`: libcnb's own reader returned the value written).
+Family `launchseq` (`build()` inside the call sequence): one such observation per `build()`, joined by ` || `; every
+document is judged on its own against the value the specification intends at that `build()`.
 -/
 namespace CnbVerif.DriverC07
 open CnbVerif CnbVerif.Codec CnbVerif.Cnb
@@ -37,6 +39,48 @@ def pLaunchOp (s : String) : Option (Builders.LaunchOp × Spec.Written.LCall) :=
   | ["S", ps] => (pStrs ps).map (fun ps => (.slice ps, .slice ps))
   | _ => none
 
+/-! ### `launchseq`: `build()` anywhere in the call sequence (`B` between the launch calls, `b` between the calls of one
+`ProcessBuilder`), the plural calls `Q` (processes) `M` (labels) `Z` (slices) -/
+
+def pProcStep (s : String) : Option (Builders.SeqOp Builders.ProcOp × Spec.Written.Step Spec.Written.PCall) :=
+  if s = "b" then some (.build, .build) else (pProcOp s).map (fun p => (.call p.1, .call p.2))
+
+/-- `type~command~calls` of a process handed to `processes([..])` (no `build()` inside: its builder is built once) -/
+def pProcTriple (s : String) : Option ((String × List String × List Builders.ProcOp) × (String × List String × List Spec.Written.PCall)) :=
+  match s.splitOn "~" with
+  | [t, c, ops] =>
+    match pStr t, pStrs c, allSome ((splitList ops "/").map pProcOp) with
+    | some t, some c, some ops => some ((t, c, ops.map (·.1)), (t, c, ops.map (·.2)))
+    | _, _, _ => none
+  | _ => none
+
+def pLabelPair (s : String) : Option (String × String) :=
+  match s.splitOn "~" with
+  | [k, v] => match pStr k, pStr v with
+    | some k, some v => some (k, v)
+    | _, _ => none
+  | _ => none
+
+def pLaunchStep (s : String) : Option (Builders.SeqOp Builders.LaunchOpX × Spec.Written.Step Spec.Written.LCallX) :=
+  if s = "B" then some (.build, .build) else
+  if s.startsWith "Q~" then
+    (allSome ((splitList (s.drop 2).toString ";").map pProcTriple)).map (fun ps => (.call (.processes (ps.map (·.1))), .call (.processes (ps.map (·.2)))))
+  else if s.startsWith "M~" then
+    (allSome ((splitList (s.drop 2).toString ";").map pLabelPair)).map (fun kvs => (.call (.labels kvs), .call (.labels kvs)))
+  else if s.startsWith "Z~" then
+    (allSome ((splitList (s.drop 2).toString ";").map pStrs)).map (fun pss => (.call (.slices pss), .call (.slices pss)))
+  else
+  match s.splitOn "~" with
+  | ["P", t, c, ops] =>
+    match pStr t, pStrs c, allSome ((splitList ops "/").map pProcStep) with
+    | some t, some c, some ops => some (.call (.session t c (ops.map (·.1))), .call (.session t c (ops.map (·.2))))
+    | _, _, _ => none
+  | ["L", k, v] => match pStr k, pStr v with
+    | some k, some v => some (.call (.label k v), .call (.label k v))
+    | _, _ => none
+  | ["S", ps] => (pStrs ps).map (fun ps => (.call (.slice ps), .call (.slice ps)))
+  | _ => none
+
 def pTable (s : String) : Option Table :=
   match parseTree s with
   | some (.tbl kvs) => some kvs
@@ -49,6 +93,9 @@ def pPlanOp (s : String) : Option (Builders.PlanOp × Spec.Written.Call) :=
     | some n, some m => some (.requires (Builders.requireWithMetadata n m), .requires ⟨n, m⟩)
     | _, _ => none
   | ["o"] => some (.or, .or)
+  | "q" :: n :: ms => match pStr n, allSome (ms.map pTable) with
+    | some n, some ms => some (.requires (Builders.requireSeq n ms), .requires (Spec.Written.intendedRequire n ms))
+    | _, _ => none
   | _ => none
 
 def pPair (s : String) : Option (String × String) :=
@@ -136,9 +183,32 @@ def stripPre (fields : List String) : List String :=
   | l :: r => if l.startsWith "pre=" then r.reverse else fields
   | [] => fields
 
+/-- several documents of one case: observations joined by ` || `, each judged on its own against the value the
+specification intends for that `build()` -/
+def judgeDocs (spec : Schema) (intended : List String) (obs : String) : String :=
+  let parts := obs.splitOn " || "
+  if parts.length ≠ intended.length then "fail:the number of written documents is not the number of build() calls" else
+  let rec go (k : Nat) : List String → List String → String
+    | i :: is, o :: os =>
+      match judge spec i true none o with
+      | "ok" => go (k + 1) is os
+      | v => "fail:document of build() #" ++ toString k ++ " of " ++ toString intended.length ++ ": " ++ (v.drop 5).toString
+    | _, _ => "ok"
+  go 1 intended parts
+
 def handle (fields0 : List String) (obs : String) : String × String :=
   let fields := stripPre fields0
   match fields with
+  | ["launchseq", ops] =>
+    match allSome ((splitList ops "|").map pLaunchStep) with
+    | none => ("bad-op", "bad-op")
+    | some ops =>
+      let built := Builders.launchSession (ops.map (·.1))
+      let model := joinWith " || " (built.map (fun l => match encode Gen.S.Launch l.toVal with
+        | some t => t.render ++ ";rt=1"
+        | none => "model-value-ill-typed"))
+      let intended := (Spec.Written.intendedLaunchDocs (ops.map (·.2))).map (fun l => l.toVal.render)
+      (model, judgeDocs Spec.Cnb.launchToml intended obs)
   | ["execd", pairs] =>
     match allSome ((splitList pairs ",").map pPair) with
     | none => ("bad-op", "bad-op")
